@@ -30,9 +30,14 @@ def run_demo(wt, mdir, i):
     tests = [f for f in os.listdir(d) if f.endswith("_test.go")]
     if tests:
         src = open(os.path.join(d, tests[0])).read()
-        m = re.search(r"(pkg/[\w/]+|cmd/[\w/]+)", src[:1500])
-        pkg = m.group(1).rstrip("/") if m else "pkg/goat"
         pm = re.search(r"^package (\w+)", src, re.M)
+        byname = {"tracking": "pkg/tracking", "tracking_test": "pkg/tracking", "increment": "pkg/tracking/increment", "goat": "pkg/goat",
+                  "goat_test": "pkg/goat", "config": "pkg/config", "config_test": "pkg/config", "utils": "pkg/utils", "utils_test": "pkg/utils",
+                  "diff": "pkg/diff", "diff_test": "pkg/diff", "maininfo": "pkg/maininfo", "maininfo_test": "pkg/maininfo", "main": "cmd/goat"}
+        pkg = byname.get(pm.group(1) if pm else "", None)
+        if pkg is None:
+            cands = [c.rstrip("/") for c in re.findall(r"(pkg/[\w/]+|cmd/[\w/]+)", src[:2000]) if os.path.isdir(os.path.join(wt, c.rstrip("/")))]
+            pkg = cands[0] if cands else "pkg/goat"
         dst = os.path.join(wt, pkg, "zz_demo_" + tests[0])
         shutil.copy(os.path.join(d, tests[0]), dst)
         for extra in os.listdir(d):
